@@ -188,6 +188,11 @@ func (c *Ctx) encoderEntries() []encEntry {
 				continue
 			}
 			e := encEntry{fn: fn, msg: msg, call: call, num: -1, wt: -1}
+			if _, isParam := call.Call.Args[1].(*ssa.Parameter); isParam {
+				// a tag-emitting helper (field number is its parameter): one entry per call site of the helper instead
+				out = append(out, c.helperEncEntries(fn, call)...)
+				continue
+			}
 			if n, ok := core.ConstInt(call.Call.Args[1]); ok {
 				e.num = n
 			}
@@ -224,13 +229,77 @@ func (c *Ctx) encoderEntries() []encEntry {
 					next = rc
 					break
 				}
-				if e.field != "" {
+				if e.field != "" && !(e.app == "AppendVarint" && e.wt == wtBytes) {
 					break
 				}
 				cur = next
 			}
 			out = append(out, e)
 		}
+	}
+	return out
+}
+
+// helperEncEntries: h contains AppendTag(enc, <param num>, T) followed by Append*(…, f(<param value>)); every call of h
+// from a hand-written function of package data becomes an encoder entry located at that call.
+func (c *Ctx) helperEncEntries(h *ssa.Function, tag *ssa.Call) []encEntry {
+	numP, _ := tag.Call.Args[1].(*ssa.Parameter)
+	numIdx := -1
+	for i, p := range h.Params {
+		if p == numP {
+			numIdx = i
+		}
+	}
+	wt := int64(-1)
+	if t, ok := core.ConstInt(tag.Call.Args[2]); ok {
+		wt = t
+	}
+	app := ""
+	var valParam *ssa.Parameter
+	for _, ref := range *tag.Referrers() {
+		rc, ok := ref.(*ssa.Call)
+		if !ok || len(rc.Call.Args) < 2 || rc.Call.Args[0] != ssa.Value(tag) {
+			continue
+		}
+		app = pwName(rc)
+		if p, ok := core.Unconv(rc.Call.Args[1]).(*ssa.Parameter); ok {
+			valParam = p
+		}
+	}
+	valIdx := -1
+	for i, p := range h.Params {
+		if p == valParam {
+			valIdx = i
+		}
+	}
+	var out []encEntry
+	for _, e := range c.G.In[h] {
+		call, ok := e.Site.(*ssa.Call)
+		if !ok || call.Call.StaticCallee() != h {
+			continue
+		}
+		caller := e.Caller
+		if rel, ok := c.P.PkgOf(caller); !ok || rel != "data" {
+			continue
+		}
+		msg := ""
+		if caller.Signature.Params().Len() >= 2 {
+			if n, ok := types.Unalias(caller.Signature.Params().At(1).Type()).(*types.Pointer); ok {
+				if nn, ok := types.Unalias(n.Elem()).(*types.Named); ok {
+					msg = strings.TrimPrefix(nn.Obj().Name(), "_")
+				}
+			}
+		}
+		ent := encEntry{fn: caller, msg: msg, call: call, num: -1, wt: wt, app: app}
+		if numIdx >= 0 {
+			if n, ok := core.ConstInt(call.Call.Args[numIdx]); ok {
+				ent.num = n
+			}
+		}
+		if valIdx >= 0 {
+			ent.field = c.traceAccessor(call.Call.Args[valIdx])
+		}
+		out = append(out, ent)
 	}
 	return out
 }
@@ -408,6 +477,14 @@ func (c *Ctx) analyseCase(d *decoder, dc *decCase) {
 				if call, ok := ins.(*ssa.Call); ok {
 					if nm := pwName(call); strings.HasPrefix(nm, "Consume") && nm != "ConsumeTag" {
 						dc.accepted[w] = nm
+						return
+					}
+					// a repository helper that is handed the wire type: does it consume under w?
+					if nm, fields := c.helperConsumes(d, call, w); nm != "" {
+						dc.accepted[w] = nm
+						for _, f := range fields {
+							dc.fields[f] = true
+						}
 						return
 					}
 				}
@@ -912,4 +989,84 @@ func (c *Ctx) sliceCarried(s *ssa.Slice, header *ssa.BasicBlock) bool {
 		return false
 	}
 	return rec(s)
+}
+
+// helperConsumes: call is a static call of a hand-written function of package data that receives the decoder's wire type;
+// returns the protowire.Consume* function reached in the helper when the wire type is w (conditions on that parameter are
+// evaluated, others fork) and the schema keys the helper assembles (constant keys, or its string parameters bound at this call).
+func (c *Ctx) helperConsumes(d *decoder, call *ssa.Call, w int64) (string, []string) {
+	h := call.Call.StaticCallee()
+	if h == nil || len(h.Blocks) == 0 {
+		return "", nil
+	}
+	if rel, ok := c.P.PkgOf(h); !ok || rel != "data" || !c.P.HandWritten(h) {
+		return "", nil
+	}
+	var wtParam *ssa.Parameter
+	for i, a := range call.Call.Args {
+		if core.Unconv(a) == d.wireType && i < len(h.Params) {
+			wtParam = h.Params[i]
+		}
+	}
+	if wtParam == nil {
+		return "", nil
+	}
+	found := ""
+	seen := map[*ssa.BasicBlock]bool{}
+	var walk func(b *ssa.BasicBlock)
+	walk = func(b *ssa.BasicBlock) {
+		if seen[b] || found != "" {
+			return
+		}
+		seen[b] = true
+		for _, ins := range b.Instrs {
+			if cc, ok := ins.(*ssa.Call); ok {
+				if nm := pwName(cc); strings.HasPrefix(nm, "Consume") && nm != "ConsumeTag" {
+					found = nm
+					return
+				}
+			}
+		}
+		if iff := core.BlockIf(b); iff != nil {
+			if bo, ok := iff.Cond.(*ssa.BinOp); ok && core.Unconv(bo.X) == ssa.Value(wtParam) && (bo.Op == token.EQL || bo.Op == token.NEQ) {
+				if k, ok := core.ConstInt(bo.Y); ok {
+					if (k == w) == (bo.Op == token.EQL) {
+						walk(b.Succs[0])
+					} else {
+						walk(b.Succs[1])
+					}
+					return
+				}
+			}
+		}
+		for _, s2 := range b.Succs {
+			walk(s2)
+		}
+	}
+	walk(h.Blocks[0])
+	if found == "" {
+		return "", nil
+	}
+	var fields []string
+	for _, ci := range core.CallsIn(h) {
+		me, ok := ci.(*ssa.Call)
+		if !ok || !core.IsCallTo(me, qpPath, "MapEntry") {
+			continue
+		}
+		switch k := me.Call.Args[1].(type) {
+		case *ssa.Const:
+			if k.Value != nil && k.Value.Kind() == constant.String {
+				fields = append(fields, constant.StringVal(k.Value))
+			}
+		case *ssa.Parameter:
+			for i, p := range h.Params {
+				if p == k && i < len(call.Call.Args) {
+					if kc, ok := call.Call.Args[i].(*ssa.Const); ok && kc.Value != nil && kc.Value.Kind() == constant.String {
+						fields = append(fields, constant.StringVal(kc.Value))
+					}
+				}
+			}
+		}
+	}
+	return found, fields
 }
